@@ -1,12 +1,13 @@
 #!/venv/bin/python
 """
-Robustness probe: rename every function-local variable (not parameters, not attributes) in the
-given files, analyse the renamed tree as an in-memory overlay, and report every check that
+Robustness probe: apply a behaviour-preserving rewriting (rename every function-local variable,
+rename private members, swap branches, early returns, returns through a local, inserted logging)
+to the given files, analyse the renamed tree as an in-memory overlay, and report every check that
 changes its verdict.  A rename is behaviour-preserving, so any new finding or ANALYSIS-ERROR is
 a name-dependence of a rule.
 
-  rename_twins.py [file ...]      (default: the driver / manager / pragma / discovery files)
-  rename_twins.py --private [file ...]   rename every private method / field instead (default: all files)
+  rename_twins.py [file ...]                 rename locals (default: the driver / manager / pragma / discovery files)
+  rename_twins.py --<transform> [file ...]   locals | private | swap | early | rettemp | logging | all  (default: all files)
 """
 import ast
 import importlib
@@ -122,6 +123,171 @@ def private_renamed(text: str, suffix: str = "_zq") -> str:
     return ast.unparse(tree)
 
 
+def _negated(test: ast.expr) -> ast.expr:
+    if isinstance(test, ast.UnaryOp) and isinstance(test.op, ast.Not):
+        return test.operand
+    return ast.UnaryOp(op=ast.Not(), operand=test)
+
+
+class SwapBranches(ast.NodeTransformer):
+    """``if c: A else: B`` -> ``if not c: B else: A`` (not for elif chains)"""
+
+    def visit_If(self, node: ast.If) -> ast.AST:
+        self.generic_visit(node)
+        if node.orelse and not (len(node.orelse) == 1 and isinstance(node.orelse[0], ast.If)):
+            node.test, node.body, node.orelse = _negated(node.test), node.orelse, node.body
+        return node
+
+
+class EarlyReturn(ast.NodeTransformer):
+    """a procedure whose last statement is ``if c: body`` -> ``if not c: return`` + body"""
+
+    def visit_FunctionDef(self, node: ast.FunctionDef) -> ast.AST:
+        self.generic_visit(node)
+        if node.body and isinstance(node.body[-1], ast.If) and not node.body[-1].orelse:
+            last = node.body[-1]
+            returns_value = any(isinstance(s, ast.Return) and s.value is not None for s in ast.walk(node))
+            generator = any(isinstance(s, (ast.Yield, ast.YieldFrom)) for s in ast.walk(node))
+            if not returns_value and not generator:
+                node.body = node.body[:-1] + [ast.If(test=_negated(last.test), body=[ast.Return(value=None)], orelse=[])] + last.body
+        return node
+
+
+class ReturnThroughLocal(ast.NodeTransformer):
+    """``return <expr>`` -> ``result_zq = <expr>; return result_zq``"""
+
+    @staticmethod
+    def _block(body):
+        out = []
+        for stmt in body:
+            if isinstance(stmt, ast.Return) and stmt.value is not None and not isinstance(stmt.value, (ast.Name, ast.Constant)):
+                out.append(ast.Assign(targets=[ast.Name(id="result_zq", ctx=ast.Store())], value=stmt.value, lineno=stmt.lineno))
+                out.append(ast.Return(value=ast.Name(id="result_zq", ctx=ast.Load())))
+            else:
+                out.append(stmt)
+        return out
+
+    def generic_visit(self, node: ast.AST) -> ast.AST:
+        super().generic_visit(node)
+        for field in ("body", "orelse", "finalbody"):
+            block = getattr(node, field, None)
+            if isinstance(block, list) and block and isinstance(block[0], ast.stmt):
+                setattr(node, field, self._block(block))
+        if isinstance(node, ast.Try):
+            for handler in node.handlers:
+                handler.body = self._block(handler.body)
+        return node
+
+
+def logging_inserted(text: str) -> str:
+    """a debug call as the first statement of every function of a module that has a logger"""
+    import re
+
+    match = re.search(r"^(POGGER|LOGGER) = ", text, re.M)
+    if not match:
+        return text
+    logger = match.group(1)
+    tree = ast.parse(text)
+
+    class Insert(ast.NodeTransformer):
+        def visit_FunctionDef(self, node: ast.FunctionDef) -> ast.AST:
+            self.generic_visit(node)
+            stmt = ast.parse(f'{logger}.debug("probe")').body[0]
+            docstring = bool(node.body and isinstance(node.body[0], ast.Expr) and isinstance(node.body[0].value, ast.Constant) and isinstance(node.body[0].value.value, str))
+            node.body.insert(1 if docstring else 0, stmt)
+            return node
+
+    tree = Insert().visit(tree)
+    ast.fix_missing_locations(tree)
+    return ast.unparse(tree)
+
+
+class ConditionThroughLocal(ast.NodeTransformer):
+    """``if <expr>:`` -> ``cond_zq_N = <expr>; if cond_zq_N:`` (plain if statements, not elif)"""
+
+    def __init__(self) -> None:
+        self.counter = 0
+
+    def _block(self, body):
+        out = []
+        for stmt in body:
+            if isinstance(stmt, ast.If) and not isinstance(stmt.test, (ast.Name, ast.Constant)):
+                self.counter += 1
+                name = f"cond_zq_{self.counter}"
+                out.append(ast.Assign(targets=[ast.Name(id=name, ctx=ast.Store())], value=stmt.test, lineno=stmt.lineno))
+                stmt.test = ast.Name(id=name, ctx=ast.Load())
+            out.append(stmt)
+        return out
+
+    def generic_visit(self, node: ast.AST) -> ast.AST:
+        super().generic_visit(node)
+        for field in ("body", "orelse", "finalbody"):
+            block = getattr(node, field, None)
+            if isinstance(block, list) and block and isinstance(block[0], ast.stmt):
+                if field == "orelse" and isinstance(node, ast.If) and len(block) == 1 and isinstance(block[0], ast.If):
+                    continue  # elif: the test must stay where it is
+                setattr(node, field, self._block(block))
+        if isinstance(node, ast.Try):
+            for handler in node.handlers:
+                handler.body = self._block(handler.body)
+        return node
+
+
+class NestConjunctions(ast.NodeTransformer):
+    """``if a and b: X`` (no else) -> ``if a: if b: X``"""
+
+    def visit_If(self, node: ast.If) -> ast.AST:
+        self.generic_visit(node)
+        if not node.orelse and isinstance(node.test, ast.BoolOp) and isinstance(node.test.op, ast.And) and len(node.test.values) >= 2:
+            first, rest = node.test.values[0], node.test.values[1:]
+            inner_test = rest[0] if len(rest) == 1 else ast.BoolOp(op=ast.And(), values=rest)
+            node.body = [ast.If(test=inner_test, body=node.body, orelse=[])]
+            node.test = first
+        return node
+
+
+class LoopContinue(ast.NodeTransformer):
+    """a loop body that is one ``if c: X`` -> ``if not c: continue`` + X"""
+
+    def _loop(self, node):
+        self.generic_visit(node)
+        if len(node.body) == 1 and isinstance(node.body[0], ast.If) and not node.body[0].orelse:
+            only = node.body[0]
+            node.body = [ast.If(test=_negated(only.test), body=[ast.Continue()], orelse=[])] + only.body
+        return node
+
+    visit_For = _loop
+    visit_While = _loop
+
+
+def _by_transformer(transformer_class):
+    def apply(text: str) -> str:
+        tree = transformer_class().visit(ast.parse(text))
+        ast.fix_missing_locations(tree)
+        return ast.unparse(tree)
+
+    return apply
+
+
+# name -> (description, text -> text); every one is behaviour preserving
+TRANSFORMS = {
+    "locals": ("every local variable of the package renamed and every file re-printed", _by_transformer(Renamer)),
+    "private": ("every private method and field of the package renamed and every file re-printed", private_renamed),
+    "swap": ("both branches of every if/else swapped under the negated test", _by_transformer(SwapBranches)),
+    "early": ("every trailing if-block of a procedure turned into an early return", _by_transformer(EarlyReturn)),
+    "rettemp": ("every returned expression first stored in a local", _by_transformer(ReturnThroughLocal)),
+    "logging": ("a debug call inserted at the top of every function", logging_inserted),
+    "condtemp": ("every if-test first stored in a local", _by_transformer(ConditionThroughLocal)),
+    "nest": ("every 'if a and b' without else split into nested ifs", _by_transformer(NestConjunctions)),
+    "continue": ("every loop body that is one if-block turned into 'if not c: continue'", _by_transformer(LoopContinue)),
+}
+
+
+def transformed_overlay(source: Source, name: str, files=None):
+    function = TRANSFORMS[name][1]
+    return {rel: function(source.read(rel, raw=True)) for rel in (files or source.python_files())}
+
+
 def findings_for(source: Source):
     out = {}
     try:
@@ -141,36 +307,32 @@ def findings_for(source: Source):
 
 
 def main() -> int:
-    files = sys.argv[1:] or DEFAULT_FILES
+    args = sys.argv[1:]
+    names = [a[2:] for a in args if a.startswith("--")] or ["locals"]
+    files = [a for a in args if not a.startswith("--")]
+    if names == ["all"]:
+        names = list(TRANSFORMS)
     base_source = Source()
     base = findings_for(base_source)
-    overlay = {}
-    private = "--private" in files
-    files = [f for f in files if f != "--private"] or (base_source.python_files() if private else DEFAULT_FILES)
-    for rel in files:
-        if private:
-            overlay[rel] = private_renamed(base_source.read(rel, raw=True))
-            continue
-        tree = ast.parse(base_source.read(rel))
-        tree = Renamer().visit(tree)
-        ast.fix_missing_locations(tree)
-        overlay[rel] = ast.unparse(tree)
-    renamed_source = base_source.with_overlay(overlay)
-    renamed = findings_for(renamed_source)
-    if private:
-        print(f"{len(renamed_source.renames)} private members re-identified under their pinned names")
     problems = 0
-    for prop in PROPS:
-        # finding keys contain statement text, which changes with the rename: compare by rule id multiset
-        before = sorted(item.split(" ")[0] for item in base[prop])
-        after = sorted(item.split(" ")[0] for item in renamed[prop])
-        if before != after or any(item.startswith("ANALYSIS-ERROR") for item in renamed[prop]):
-            problems += 1
-            print(f"{prop}: verdict changes under renaming")
-            for item in renamed[prop]:
-                if item not in base[prop]:
-                    print("   ", item[:220])
-    print(f"{len(files)} files renamed, {problems} propert(ies) changed verdict")
+    for name in names:
+        targets = files or (DEFAULT_FILES if name == "locals" and not args else base_source.python_files())
+        twin_source = base_source.with_overlay(transformed_overlay(base_source, name, targets))
+        twin = findings_for(twin_source)
+        changed = 0
+        for prop in PROPS:
+            # finding keys contain statement text, which the rewriting changes: compare by rule id multiset
+            before = sorted(item.split(" ")[0] for item in base[prop])
+            after = sorted(item.split(" ")[0] for item in twin[prop])
+            if before != after or any(item.startswith("ANALYSIS-ERROR") for item in twin[prop]):
+                changed += 1
+                print(f"{prop}: verdict changes under '{name}'")
+                for item in twin[prop]:
+                    if item not in base[prop]:
+                        print("   ", item[:220])
+        extra = f", {len(twin_source.renames)} private members re-identified" if name == "private" else ""
+        print(f"{name}: {TRANSFORMS[name][0]} - {len(targets)} files, {changed} propert(ies) changed verdict{extra}")
+        problems += changed
     return 1 if problems else 0
 
 
